@@ -486,11 +486,14 @@ def getDeployment (c : Cluster) (ns : String) (ref : Ref) : Out :=
 
 /-! ### the StatefulSet-like finder -/
 
-/-- `IsSupportedWorkload`: group and kind of the known workloads (version ignored), unless the filter is off -/
-def isSupportedWorkload (filter : Bool) (gvk : GVK) : Bool :=
-  !filter ||
+/-- `knownWorkloadGVKs` (group, kind; the loop of `IsSupportedWorkload` ignores the version) -/
+def knownWorkloadGVKs : List (String × String) :=
   [("apps", "ReplicaSet"), ("apps", "Deployment"), ("apps", "StatefulSet"), ("apps.kruise.io", "CloneSet"),
-   ("apps.kruise.io", "StatefulSet"), ("apps.kruise.io", "StatefulSet"), ("apps.kruise.io", "DaemonSet")].contains (gvk.group, gvk.kind)
+   ("apps.kruise.io", "StatefulSet"), ("apps.kruise.io", "StatefulSet"), ("apps.kruise.io", "DaemonSet")]
+
+/-- `IsSupportedWorkload`: group and kind of the known workloads, unless the filter is off -/
+def isSupportedWorkload (filter : Bool) (gvk : GVK) : Bool :=
+  !filter || knownWorkloadGVKs.any fun known => gvk.group == known.1 && gvk.kind == known.2
 
 /-- the empty object `GetEmptyWorkloadObject` hands to `Get` -/
 inductive Empty where
